@@ -34,6 +34,7 @@ def c11_tasks():
         for idx in (0, 1, 2):
             ts.append((f"set_reward_emissions{'_v2' if v2 else ''}:{idx}", hm.set_reward_emissions_task(v2, idx)))
     # accrual arithmetic floor(dt*e/L) and credit floor(L*delta/2^64) (leaves); crossings use the reward growths accrued to now (W5/P7)
+    ts.append(('update_emissions', hm.update_emissions_task))      # the state method behind set_reward_emissions: settles ALL rewards, then changes one rate
     return ts + leaf(('leaf:mul_div', 'leaf:mul_shift_right')) + swap_loop()
 
 
